@@ -334,7 +334,9 @@ class HashClient:
         try:
             failed = client.set_many(values, *args, **kwargs)
         except Exception as e:
-            if not self.ignore_exc:
+            # A connection error must reach the failover bookkeeping of
+            # _safely_run_set_many even when exceptions are ignored.
+            if not self.ignore_exc or isinstance(e, OSError):
                 return succeeded, failed, e
 
         succeeded = [key for key in values if key not in failed]
